@@ -34,6 +34,8 @@ namespace OP2Utility::Stream
 		file.read(static_cast<char*>(buffer), size);
 		// Check stream flags for errors
 		if (!file) {
+			// Reset the error state, or every later seek and read on this stream would fail as well
+			file.clear();
 			throw std::runtime_error("Error reading from file");
 		}
 	}
